@@ -308,6 +308,8 @@ type structInfo struct {
 }
 
 type Registry struct {
+	axiomSeen map[string]bool
+	implFns map[string]*types.Interface
 	lines      []string          // declarations, in order
 	seen       map[string]bool   // names declared
 	structs    map[string]*structInfo
@@ -433,6 +435,13 @@ func (r *Registry) Declare(name string, line string) {
 }
 
 func (r *Registry) Axiom(line string) {
+	if r.axiomSeen == nil {
+		r.axiomSeen = map[string]bool{}
+	}
+	if r.axiomSeen[line] {
+		return
+	}
+	r.axiomSeen[line] = true
 	r.axioms = append(r.axioms, line)
 }
 
@@ -449,7 +458,35 @@ func (r *Registry) DeclFun(name string, args []Sort, res Sort) {
 }
 
 func (r *Registry) Prelude() string {
-	return strings.Join(r.lines, "\n") + "\n" + strings.Join(r.axioms, "\n") + "\n"
+	var b strings.Builder
+	b.WriteString(strings.Join(r.lines, "\n") + "\n" + strings.Join(r.axioms, "\n") + "\n")
+	// which of the concrete types met so far implement the interfaces asserted to
+	if len(r.implFns) > 0 {
+		names := make([]string, 0, len(r.implFns))
+		for n := range r.implFns {
+			names = append(names, n)
+		}
+		sort.Strings(names)
+		for _, n := range names {
+			iface := r.implFns[n]
+			for id := 1; id < len(r.typeByID); id++ {
+				t := r.typeByID[id]
+				if _, isI := t.Underlying().(*types.Interface); isI {
+					continue
+				}
+				fmt.Fprintf(&b, "(assert (= (%s %d) %v))\n", n, id, types.Implements(t, iface))
+			}
+		}
+	}
+	return b.String()
+}
+
+// ImplementsFn registers the predicate "the type with this tag implements iface".
+func (r *Registry) ImplementsFn(name string, iface *types.Interface) {
+	if r.implFns == nil {
+		r.implFns = map[string]*types.Interface{}
+	}
+	r.implFns[name] = iface
 }
 
 // TypeID returns the interface tag of a concrete type.
